@@ -2,6 +2,7 @@
 from __future__ import annotations
 
 import itertools
+import math
 
 import numpy as np
 
@@ -297,6 +298,56 @@ def bcast_vec_check(ctx, c, outs):
     return None
 
 
+def quat_vec_check(ctx, c, outs):
+    """plain `Quaternion` objects (NOT normalised by the constructor) acting on vectors: the action is that of the rotation
+    the quaternion denotes (q / |q|), so lengths and mutual angles are kept, it agrees with `to_matrix`, and the eager outer
+    product holds exactly the pairwise element-wise products"""
+    Q, R, O, M, qmod, V, Mi = _imp()
+    qd = np.array(c["q"], float)
+    sa, sb = tuple(c["qshape"]), tuple(c["vshape"])
+    A = Q(qd.reshape(sa + (4,)))
+    v = V(np.array(c["v"], float).reshape(sb + (3,)))
+    scale = max(1.0, float(np.abs(v.data).max()))
+
+    def ref(q, x):                     # rotation by the unit quaternion q/|q| = (a, r): x + 2a r×x + 2 r×(r×x)
+        q = np.asarray(q, float) / math.sqrt(float(np.dot(q, q)))
+        a, r = q[0], q[1:]
+        t = np.cross(r, x)
+        return x + 2 * a * t + 2 * np.cross(r, t)
+
+    out = A.outer(v)
+    if tuple(out.shape) != sa + sb:
+        return f"Quaternion.outer(Vector3d) shape {tuple(out.shape)} != {sa + sb}"
+    for i in np.ndindex(*sa):
+        for j in np.ndindex(*sb):
+            e = ref(A.data[i], v.data[j])
+            one = (A[i] * v[j]).data.reshape(-1)
+            if np.abs(one - e).max() / scale > 1e-12:
+                return (f"Quaternion {A.data[i].tolist()} (norm {float(np.linalg.norm(A.data[i]))}) * vector {v.data[j].tolist()} = "
+                        f"{one.tolist()} but the rotation it denotes gives {e.tolist()}")
+            if abs(float(np.linalg.norm(one)) - float(np.linalg.norm(v.data[j]))) / scale > 1e-12:
+                return f"length changed by Quaternion * vector: {float(np.linalg.norm(one))} vs {float(np.linalg.norm(v.data[j]))}"
+            if np.abs(out.data[i + j] - one).max() / scale > 1e-12:
+                return (f"Quaternion.outer(Vector3d)[{i + j}] = {out.data[i + j].tolist()} != self[{i}] * other[{j}] = {one.tolist()} "
+                        f"(quaternion {A.data[i].tolist()})")
+            m = A[i].to_matrix().reshape(3, 3)
+            if np.abs(m @ v.data[j] - one).max() / scale > 1e-12:
+                return f"Quaternion {A.data[i].tolist()}: to_matrix() @ v = {(m @ v.data[j]).tolist()} but Q * v = {one.tolist()}"
+    if sa == sb or int(np.prod(sa)) == 1 or int(np.prod(sb)) == 1:
+        try:
+            P = (A * v).data
+        except ValueError:
+            P = None
+        if P is not None:
+            shp = np.broadcast_shapes(sa, sb)
+            AA, BB = np.broadcast_to(A.data, shp + (4,)), np.broadcast_to(v.data, shp + (3,))
+            for i in np.ndindex(*shp):
+                if np.abs(P[i] - ref(AA[i], BB[i])).max() / scale > 1e-12:
+                    return (f"(Quaternion * Vector3d)[{i}] = {P[i].tolist()} but the rotation denoted by {AA[i].tolist()} maps "
+                            f"{BB[i].tolist()} to {ref(AA[i], BB[i]).tolist()}")
+    return None
+
+
 def reuse_check(ctx, c, outs):
     """products of an object that was used before and then edited IN PLACE (setitem / data / component setters, also
     strided views) equal the products of a freshly constructed object with the same content"""
@@ -368,10 +419,16 @@ SITES = {
     "outer_index": sites.Site("outer_index", "prop", outer_prop_check),
     "broadcast": sites.Site("broadcast", "prop", bcast_check),
     "broadcast_vec": sites.Site("broadcast_vec", "prop", bcast_vec_check),
+    "quat_vec": sites.Site("quat_vec", "prop", quat_vec_check),
     "align": sites.Site("align", "prop", align_check),
     "reuse_after_edit": sites.Site("reuse_after_edit", "prop", reuse_check),
 }
 PREDICATES = {}
+
+
+BROADCAST_PAIRS = [((3, 1), (4,)), ((2, 1), (3,)), ((1, 3), (2, 1)), ((2, 1), (1, 3)), ((3,), (2, 1)), ((2, 1, 2), (3, 1)),
+                   ((2, 3), (3,)), ((3,), (2, 3)), ((1,), (4,)), ((4,), (1,)), ((2, 2), (2, 1)), ((2, 1), (2, 2)), ((1, 2), (3, 2)),
+                   ((2, 1, 1), (3, 2)), ((3, 1), (3, 3)), ((2, 2), (2, 2))]
 
 
 def rot_arr(rng, shape):
@@ -410,6 +467,35 @@ def generate(ctx):
         c2["r2"]["shape"] = [1]
         ctx.count(f"compose/{s2}", ("co", q1, q2, c["v"]), nontrivial=(s1 != "identity" or s2 != "identity"))
         yield "compose", c2
+    # fixed broadcasting strata, every run: a size-1 axis of the rotations against a longer axis of the other operand in
+    # every position, flags guaranteed mixed along every axis of the rotation object (a tiled / flattened / transposed
+    # flag array then differs from the broadcast one)
+    for sa, sb in BROADCAST_PAIRS:
+        for rep in range(2):
+            r1 = rot_arr(rng, sa)
+            n1 = len(r1["i"])
+            r1["i"] = [bool((sum(ix) + rep) % 2) for ix in np.ndindex(*sa)]     # checkerboard: mixed along every axis
+            c = {"r1": r1, "vshape": list(sb), "v": [G.vec(rng) for _ in range(int(np.prod(sb)))]}
+            ctx.count("broadcast_vec/fixed_pairs", ("bvf", sa, sb, rep), nontrivial=(sa != sb))
+            yield "broadcast_vec", c
+            r2 = rot_arr(rng, sb)
+            n2 = len(r2["i"])
+            r2["i"] = [bool((j + 1 + rep) % 2) for j in range(n2)]
+            c = {"r1": dict(r1), "r2": r2}
+            ctx.count("broadcast/fixed_pairs", ("bcf", sa, sb, rep), nontrivial=(sa != sb))
+            yield "broadcast", c
+    for k in range(12 if ctx.tier == "quick" else 200):
+        sa = [(2,), (1,), (2, 2), (3,)][k % 4]
+        sb = [sa, (1,), (3,), (2, 1)][(k // 4) % 4]
+        qs = []
+        for j in range(int(np.prod(sa))):
+            q = np.array(G.unit_quat(rng)[0], float)
+            qs.append([float(t) for t in q * [1.0, 2.0, 0.5, 3.75, 1e-3, 40.0][(j + k) % 6]])
+        if k % 3 == 0:
+            qs[0] = [[1.0, 1.0, 0.0, 0.0], [0.0, 0.0, 2.0, 0.0], [1.0, -1.0, 1.0, -1.0], [-3.0, 0.0, 0.0, 4.0]][(k // 3) % 4]
+        c = {"q": qs, "qshape": list(sa), "vshape": list(sb), "v": [G.vec(rng) for _ in range(int(np.prod(sb)))]}
+        ctx.count("quat_vec/non_unit", ("qv", k, qs[0]), nontrivial=True)
+        yield "quat_vec", c
     m = 40 if ctx.tier == "quick" else 600
     for k in range(m):
         sa, sb = G.shape(rng), G.shape(rng)
